@@ -13,10 +13,10 @@ f_{z+1} = f_z S_z / (alpha_{z+1} + (n_D/n_e) C_{z+1}) in log space (vf/mock_c09.
 
 Per point the returned fractions are judged by
   range      0 <= f <= 1 (exact), finite;
-  fractions  |f - f_exact| <= 1e-12 + dF,  dF = 50 eps kappa_2(A)  (forward error owed by a double-precision solve);
-  sum        |sum f - 1| <= 1e-12 + 50 eps ||A||_2 + (Z+1) dF     (normalisation-row backward error, or the residual
+  fractions  |f - f_exact| <= 1e-12 + dF,  dF = 200 eps kappa_2(A)  (forward error owed by a double-precision solve);
+  sum        |sum f - 1| <= 1e-12 + 200 eps ||A||_2 + (Z+1) dF     (normalisation-row backward error, or the residual
              implied by an admissible forward error);
-  balance    |f_z S_z - f_{z+1} R_{z+1}| <= 50 eps (Z+2) ||A||_2 / n_e + 2 max(rate) dF  for every neighbouring pair
+  balance    |f_z S_z - f_{z+1} R_{z+1}| <= 200 eps (Z+2) ||A||_2 / n_e + 2 max(rate) dF  for every neighbouring pair
              (pair flux = partial sum of the balance-row backward errors);
 where A is the documented (Z+2)x(Z+1) system (balance matrix * n_e, row of ones) rebuilt by the harness from the mock
 rates ONLY to size the tolerances.  Points whose forward tolerance exceeds 1e-4 (kappa > ~1e10) are not judged on the
@@ -49,7 +49,7 @@ LEVEL_TEXT = ("Exploration by runtime reference-model monitoring: every public e
               "tables; the code is deterministic NumPy/SciPy")
 LEVEL_NOTE = ("trusted: the recurrence oracle in vf/mock_c09.py, Raysect's function objects evaluated by the harness to "
               "learn the point values, EFITEquilibrium.psi_normalised / inside_lcfs (property C12); forward errors are "
-              "not judged where 50 eps kappa > 1e-4")
+              "not judged where 200 eps kappa > 1e-4")
 TECHNIQUE = ("runtime monitoring: reference-model oracle per call (exact recurrence) over generated workloads + icontract "
              "postconditions on the real point helpers + recorded solver status; thorough tier re-runs the repository's "
              "tests under the same contracts")
@@ -57,16 +57,16 @@ ASSUMPTIONS = ["rates are positive and finite at every driven point (quantifier:
                "species passed to match_plasma_neutrality use the representations the module itself produces "
                "(dict charge->ndarray / Function1D / Function2D, or ndarray [charge, ...])",
                "free variables are ndarrays (or one scalar for 1-D functions) as documented",
-               "forward error is owed only up to 50 eps kappa_2 of the documented linear system (double precision solve)"]
+               "forward error is owed only up to 200 eps kappa_2 of the documented linear system (double precision solve)"]
 QUICK = dict(cases=600, workers=2, timecap=40)
 THOROUGH = dict(cases=26000, workers=16, timecap=600)
-REQUIRED = {"fractions": 2000, "balance": 2000, "sum_range": 300, "densities": 40, "neutrality": 40, "cross_entry": 100,
-            "interp_nodes": 40, "eqmap_points": 10, "contract_evals": 500, "donor_sensitive": 30}
+REQUIRED = {"fractions": 5000, "balance": 5000, "sum_range": 500, "densities": 1500, "neutrality": 150, "cross_entry": 1000,
+            "interp_nodes": 2000, "eqmap_points": 1000, "contract_evals": 1000, "donor_sensitive": 80}
 
 EPS = 2.220446049250313e-16
-CF = 50.0
-CS = 50.0
-CJ = 50.0
+CF = 200.0
+CS = 200.0
+CJ = 200.0
 FWD_SKIP = 1e-4
 SLACK_COEF = 1e-10
 SLACK_SKIP = 1e-6
@@ -381,7 +381,7 @@ def _ratios(f, O, Z, slack):
     A double-precision solve of the documented system owes either a backward error of a few eps*||A|| (what the direct
     least-squares path delivers) or a forward error of a few eps*kappa (what any forward-stable method, e.g. clipping
     rounding-level negatives, delivers); the sum and pair-balance tolerances therefore are the backward-level bound plus
-    the residual implied by an admissible forward error  dF = 50 eps kappa (+ interpolation slack)."""
+    the residual implied by an admissible forward error  dF = 200 eps kappa (+ interpolation slack)."""
     dF = CF * EPS * O["kappa"] + slack
     tolS = 1e-12 + CS * EPS * O["normA"] + (Z + 1) * dF
     rS = abs(float(f.sum()) - 1.0) / tolS
@@ -423,7 +423,7 @@ def _judge_point(ctx, case, fam, f, O, O_nd, status, slack, check_sum, where, no
             fails.append(("fractions-mismatch", "returned fraction differs from the exact recurrence solution",
                           {"charge": k, "got": float(f[k]), "want": float(O["f"][k]), "tol": tolF, "ratio": rF}))
         if not judge_fwd:
-            ctx.skip("forward error not judged: 50 eps kappa > 1e-4")
+            ctx.skip("forward error not judged: 200 eps kappa > 1e-4")
     ctx.mon("sum_range")
     ctx.mon("balance", Z)
     if tolF <= FWD_SKIP and tolF > 0:
@@ -448,6 +448,8 @@ def _judge_point(ctx, case, fam, f, O, O_nd, status, slack, check_sum, where, no
         same = tolF2 <= FWD_SKIP and rJ2 <= 1 and rF2 <= 1
         if not same and nodonor_ref is not None:
             r2 = nodonor_ref()   # conditioning-independent: identical to the module's own no-donor computation?
+            if r2 is not None and fam == "match" and r2.sum() > 0:
+                r2 = r2 / r2.sum()     # f was normalised by the harness; the module's own sum is 1 only to solver accuracy
             same = r2 is not None and bool(np.all(np.abs(f - r2) <= 1e-12 + 1e-9 * np.abs(r2) + 2.0 * slack))
         if same:
             ctx.viol(_donor_key(entry, fam),
@@ -639,7 +641,7 @@ def run_case(case, ctx):
         return
     except C.ContractViolation as e:
         st = e.info.get("lsq_status")
-        if st in C.TRF_STATUSES:
+        if e.info.get("solver_suspect"):
             ctx.viol("solver:lsq_linear-bounded-trf-path(status=%d)-result-inaccurate" % st,
                      "postcondition of %s failed (%s) on a point solved through the bounded TRF iteration" % (e.fn, e.clause),
                      entry=entry, Z=Z, clause=e.clause)
@@ -774,6 +776,8 @@ def run_case(case, ctx):
         if rr is None:
             return
         ref, ref_status = rr
+        if fam == "match" and ref.sum() > 0:
+            ref = ref / ref.sum()      # match densities are judged as a normalised vector
         f = g if fam == "fractional" else (g / nel[i] if fam == "from" else g / g.sum())
         tol = 1e-12 + 1e-9 * np.abs(ref) + 2.0 * col_slack[0]
         bad = np.abs(f - ref) > tol
@@ -784,7 +788,8 @@ def run_case(case, ctx):
                 r2 = scalar_ref(False, i)
                 if r2 is not None:
                     trf_involved = trf_involved or r2[1] in C.TRF_STATUSES
-                    if np.all(np.abs(f - r2[0]) <= 1e-12 + 1e-9 * np.abs(r2[0]) + 2.0 * col_slack[0]):
+                    r2f = r2[0] / r2[0].sum() if (fam == "match" and r2[0].sum() > 0) else r2[0]
+                    if np.all(np.abs(f - r2f) <= 1e-12 + 1e-9 * np.abs(r2f) + 2.0 * col_slack[0]):
                         ctx.viol(_donor_key(entry, fam),
                                  "a thermal-CX donor with density > 0 was supplied: fractional_abundance uses it, this entry point "
                                  "returns exactly the module's own no-donor fractions", entry=entry, point=i)
@@ -835,7 +840,7 @@ def parent_extra(tier, seed, cfg):
     viols, counts = [], {}
     for fl in res["contract_failures"]:
         st = fl["info"].get("lsq_status")
-        if st in (-1, 0, 1, 2):
+        if fl["info"].get("solver_suspect"):
             key = "solver:lsq_linear-bounded-trf-path(status=%d)-result-inaccurate" % st
         else:
             key = "suite-contract:%s:%s" % (fl["fn"], fl["clause"])
